@@ -1035,7 +1035,42 @@ def op_retype_and_rename(g, dv, protected):
           ["RenameColumn", t.tableId, c.colId, new_id]]
 
 
+def op_add_filter(g, dv, protected):
+  """A saved column filter on a widget (a _grist_Filters record naming the section and the column)."""
+  secs = [(r, rec) for r, rec in dv.records("_grist_Views_section") if rec.get("tableRef") in dv.table_by_ref]
+  if not secs:
+    return None
+  sid, sec = g.rng.choice(secs)
+  t = dv.table_by_ref[sec["tableRef"]]
+  cols = [c for c in t.cols.values() if c.colId != "manualSort" and not c.colId.startswith("gristHelper_")]
+  have = set((rec["viewSectionRef"], rec["colRef"]) for _r, rec in dv.records("_grist_Filters"))
+  cols = [c for c in cols if (sid, c.ref) not in have]
+  if not cols:
+    return None
+  c = g.rng.choice(cols)
+  return [["AddRecord", "_grist_Filters", None, {"viewSectionRef": sid, "colRef": c.ref,
+                                                 "filter": json.dumps({"included": [g.rng.choice(["a", 1, ""])]})}]]
+
+
+def op_link_sections(g, dv, protected):
+  """Link one widget to another through columns (linkSrcSectionRef / linkSrcColRef / linkTargetColRef)."""
+  secs = [(r, rec) for r, rec in dv.records("_grist_Views_section")
+          if rec.get("tableRef") in dv.table_by_ref and rec.get("parentId")]
+  if len(secs) < 2:
+    return None
+  (a, ra), (b, rb) = g.rng.sample(secs, 2)
+  ta, tb = dv.table_by_ref[ra["tableRef"]], dv.table_by_ref[rb["tableRef"]]
+  ca = [c for c in ta.user_cols()]
+  cb = [c for c in tb.user_cols()]
+  upd = {"linkSrcSectionRef": a,
+         "linkSrcColRef": g.rng.choice(ca).ref if ca and g.rng.random() < 0.7 else 0,
+         "linkTargetColRef": g.rng.choice(cb).ref if cb and g.rng.random() < 0.7 else 0}
+  return [["UpdateRecord", "_grist_Views_section", b, upd]]
+
+
 OPS = {
+  "add_filter": op_add_filter,
+  "link_sections": op_link_sections,
   "retype_and_rename": op_retype_and_rename,
   "add_field": op_add_field,
   "error_trigger": op_error_trigger,
@@ -1079,7 +1114,7 @@ DEFAULT_WEIGHTS = {
   "add_summary_formula": 1, "remove_view_things": 1, "add_view": 1, "page_indent": 1, "set_sort": 1,
   "add_reverse": 1, "display_formula": 1, "add_rule": 1, "duplicate_table": 1,
   "trigger_column": 1, "derived_trigger": 0, "ref_trigger": 0, "error_trigger": 0, "add_field": 0,
-  "retype_and_rename": 1,
+  "retype_and_rename": 1, "add_filter": 0, "link_sections": 0,
 }
 
 
@@ -1115,7 +1150,7 @@ def gen_user_actions(g, dv, weights, protected=None, tries=12):
 
 MIX_SUMMARY_OPS = not os.environ.get("GSIM_NO_MIX_SUMMARY_OPS")
 RECORD_OPS = {"add_records", "update_records", "remove_records"}
-ALONE_OPS = {"add_field", "display_formula", "set_sort"}
+ALONE_OPS = {"add_field", "display_formula", "set_sort", "add_filter", "link_sections"}
 SUMMARY_OPS = {"add_summary", "update_summary", "detach_summary", "add_summary_formula"}
 
 
